@@ -41,6 +41,21 @@ CLAIMED["C07"] = dict(
     note="Trusts the reference model; SHA-512 from sha2 on both sides for the Ed25519 conversion.",
     technique="property-based testing (proptest) against an RFC 7748 transcription",
     design="3/C07")
+CLAIMED["C08"] = dict(
+    text="Generated-input search against RFC 8032 on the integer model: byte equality of derived keys and of pure / prehashed / hazmat signatures for special seeds, block-edge message lengths, contexts 0..255 (accepted) and 256+ (refused), chosen prehashes through a pass-through digest, expanded keys from arbitrary bytes, keypair import with matching/foreign/sign-flipped halves; every produced signature then goes through all eight verification entry points untampered and with key/message/signature/context replaced. Six back-end builds with batch, digest, hazmat features on (never compiled by the baseline). Exploration level.",
+    note="Trusts the reference model (self-tested on the 128 sign.input lines and the RFC 8032 Ed25519ph vector) and sha2 for SHA-512.",
+    technique="property-based testing (proptest) against an RFC 8032 reference model; round trip through all verifiers",
+    design="3/C08")
+CLAIMED["C09"] = dict(
+    text="Generated adversarial triples against the documented acceptance predicate evaluated on the integer model, both directions, for eight verification entry points: S+k*l / l / high bits, all 14 accepted encodings of the 8 torsion points as key and as R with the message searched until the cofactorless equation holds, mixed-order keys with messages searched for k*T=O, small-order R under honest keys, undecodable / non-canonical / arbitrary R and A, prehashed with contexts; default and legacy_compatibility builds (legacy S rule in the model), serial32, simd, avx512. Exploration level.",
+    note="Trusts the reference model. Contexts longer than 255 bytes are outside the documented domain of the prehashed verifiers (debug_assert) and are not sent to them.",
+    technique="property-based testing (proptest) with model-solved adversarial inputs; predicate oracle in both directions",
+    design="3/C09")
+CLAIMED["C13"] = dict(
+    text="Generated batches (n incl. 0, 1 and the Straus/Pippenger switch up to 400) from a pool of honest entries with generated corruptions (foreign key, message flip, foreign R, foreign valid S, the cancellation pair S_i+e/S_j-e, duplication), error classes (S+l, undecodable R, every slice-length mismatch), permutations and repeated calls; verify_batch must be Ok exactly when the model's single-verification predicate holds for every entry, and Err (never panic/Ok) for the error classes. Exploration level.",
+    note="Domain as stated by the property: canonical torsion-free keys and R. Trusts the reference model.",
+    technique="property-based testing (proptest): model-based + metamorphic (permutation, duplication, repetition)",
+    design="3/C13")
 
 ALL = ["C%02d" % i for i in range(1, 18)]
 REASON_PENDING = "check not built yet (see DESIGN.md build order); not claimed"
